@@ -46,6 +46,13 @@ CHECKS.update({
          "calls are sequential inside a scenario; the routing instant is 'any metadata view current during the call' (weaker reading, see DESIGN); cluster model per DESIGN 2.3", "3/C07"),
 })
 
+CHECKS.update({
+ "C11": ("client-e2e", "exploration",
+         "timing monitor at the wrapped _make_request_to_broker boundary on a virtual clock + timer-count invariant at every quiescent point + differential re-run without late replies",
+         "Requests of mixed kinds (incl. JoinGroup with its 35 s minimum) are answered promptly, late by drawn factors of the timeout (0.5 .. 3), or never, with brokers whose connections never establish and with disconnect-on-timeout on/off. Every per-broker request must resolve by issued+T, exactly at issued+T with RequestTimedOutError when no reply was delivered in time, at delivery time otherwise; armed timeout timers must equal outstanding requests after every event; removing late replies must change nothing; the silent connection is dropped at the timeout and its other requests reach the broker again.",
+         "virtual time: verdicts never depend on wall clock; exact ties between reply and timer accept either outcome", "3/C11"),
+})
+
 PENDING = {}
 
 def main():
@@ -79,7 +86,7 @@ def main():
         "engines": [
             {"name": "pure", "path": "afkverif/props", "serves_properties": ["C15", "C18"], "kind_free_text": "direct calls of pure functions under generated inputs with reference oracles"},
             {"name": "brokerclient", "path": "afkverif/engines/bc.py", "serves_properties": ["C06", "C10"], "kind_free_text": "real _KafkaBrokerClient / KafkaBootstrapProtocol over simnet (virtual clock, in-memory transports) against a scripted raw server"},
-            {"name": "client-e2e", "path": "afkverif/engines/world.py", "serves_properties": ["C07"], "kind_free_text": "real KafkaClient stack on SimClock + simnet against simkafka (cluster model speaking the independent codec)"},
+            {"name": "client-e2e", "path": "afkverif/engines/world.py", "serves_properties": ["C07", "C11"], "kind_free_text": "real KafkaClient stack on SimClock + simnet against simkafka (cluster model speaking the independent codec)"},
             {"name": "codec", "path": "afkverif/refproto.py", "serves_properties": ["C04", "C05", "C12"], "kind_free_text": "independent strict Kafka wire codec used as differential oracle"},
         ],
         "checks": checks,
